@@ -730,7 +730,7 @@ def scen_pipe(ctx, M):
                       len(st.fed) == st.raised_at + 1)
         elif want is None:
             ctx.check('C06-fed-all-%d' % i, len(st.fed) == J)
-            for j in range(J):
+            for j in range(min(J, len(st.fed))):
                 ctx.check('C06-fed-%d-%d' % (i, j),
                           h.eqbytes(st.fed[j], src_chunks[j]))
     if want is None:
